@@ -206,6 +206,53 @@ def ob_exception_escape(ctx: Ctx) -> Outcome:
     return Outcome.refuted("frames+ast", wits[:6], count=nsites, discharged=max(0, nsites - len(wits)), **extra)
 
 
+REPAIR_PROBE_VALUES = ('"²"', '"①"', '"-³"', '"٣"', '"1_0"', '" 5 "', '"+5"', '"0x10"', '"1e5"', '"1e999"', '"nan"', '"' + "9" * 5000 + '"', '""', "null", "true", "[1]", '"５"')
+
+
+def probe_repair_total() -> tuple[bool, str]:
+    """octave_validate(fix=true) on TYPE[NUMBER] / ENUM fields holding texts that look numeric to str.isdigit / isnumeric but not
+    to int(), very long digit runs, signs, spaces: an envelope must come back. -> (fails, text)"""
+    import asyncio
+    import json
+
+    from octave_mcp.mcp.validate import ValidateTool
+
+    bad = []
+    for v in REPAIR_PROBE_VALUES:
+        for field in ("MAX_ROUNDS", "MAX_TURNS", "STATUS", "MODE"):
+            text = f'===D===\nMETA:\n  TYPE::DEBATE_TRANSCRIPT\n  VERSION::"1.0"\n---\nDEBATE_TRANSCRIPT:\n  {field}::{v}\n===END===\n'
+            for prof in ("STANDARD", "LENIENT"):
+                try:
+                    r = asyncio.run(ValidateTool().execute(content=text, schema="DEBATE_TRANSCRIPT", fix=True, profile=prof))
+                    json.dumps(r)
+                except Exception as e:  # noqa: BLE001
+                    bad.append(f"octave_validate(fix=true, profile={prof}) on {field}::{v[:24]} raised {type(e).__name__}: {str(e)[:80]}")
+    return bool(bad), "; ".join(bad[:3]) or f"{len(REPAIR_PROBE_VALUES)} hostile values x 4 fields x 2 profiles through octave_validate(fix=true): envelopes"
+
+
+def ob_repair_total(ctx: Ctx) -> Outcome:
+    """C20.F8: `repair` is called by octave_validate(fix) and octave_write(lenient) OUTSIDE any handler (C20.F2 lists it as
+    assumed total). The exception-escape set of its closure (explicit raises + library table - int(), float(), ... on
+    input-dependent arguments -, propagated, minus handlers) must be empty."""
+    from props import escape as E
+
+    root = "octave_mcp.core.repair:repair"
+    try:
+        esc, H, nfuncs, nsites = E.escape_sets([root])
+    except Exception as e:  # noqa: BLE001
+        return Outcome.undecided("frames", f"escape analysis could not run: {type(e).__name__}: {e}")
+    if root not in esc:
+        return Outcome.undecided("frames", "repair not found in the working tree")
+    out = esc[root]
+    if not out:
+        return Outcome.ok("frames+ast", count=max(nsites, 1), functions_in_closure=nfuncs, raising_sites=nsites)
+    failed, text = probe_repair_total()
+    wits = [Witness(what=f"{exc} can leave repair(): {origin} — probe: {text[:300]}", key=f"{exc} from {origin.split(' <- ')[0]}"[:80], input=origin, replay={"runner": "props.C20:probe_repair_total", "args": {}}, confirmed=failed) for exc, origin in sorted(out.items())]
+    if not failed:
+        return Outcome.undecided("frames+ast", "possible exceptions out of repair(), none reproduced: " + "; ".join(w.what[:160] for w in wits[:3]), count=max(nsites, 1))
+    return Outcome.refuted("frames+ast", wits[:6], count=max(nsites, 1))
+
+
 def probe_deep_blocks() -> tuple[bool, str]:
     import sys
 
@@ -309,11 +356,10 @@ def probe_parser_hangs() -> tuple[bool, str]:
 
 
 def ob_parser_progress(ctx: Ctx) -> Outcome:
-    """C20.F7: the `while` loops of the parser that the path analysis of props/progress.py proved on the pinned tree
-    are proved (25 of 29 on the pinned tree): they exit at EOF and every path back to the loop head has
-    executed a direct advance() / expect() (or incremented the scan index); advance / expect / current are pinned. The
-    four loops that consume only through callees (document body, block children, section children, list items) are
-    listed as not proved - bounded tier."""
+    """C20.F7: every `while` loop of the parser is proved to make progress by the path analysis of props/progress.py: it exits
+    at EOF and every path back to the loop head has executed advance() / expect() (or incremented the scan index) -
+    directly, or through a callee under a contract (CONSUMES / CONSUMES_IF / TRUTHY) that the same engine proves as a least
+    fixpoint over the methods of Parser; advance / expect / current are pinned and `self.pos` is stored by advance alone."""
     from props import progress as PG
     from verif.common import shape_verdict
 
@@ -494,6 +540,7 @@ def obligations(ctx: Ctx):
         Ob(f"{P}.F3", "F", "bracket recursion is cut by _check_deep_nesting at MAX_NESTING_DEPTH", [f"{PARSER}:Parser.parse_list"], ob_recursion_cut),
         Ob(f"{P}.F5", "F", "exception escape: only LexerError / ParserError can leave the readers (explicit raises + library-call table, propagated through the call graph, minus enclosing handlers)", FUNCS, ob_exception_escape),
         Ob(f"{P}.F7", "F", "parser progress: every while loop exits at EOF and consumes a token (or advances its scan index) on every path back to the loop head; the structural main loops consume through callees whose contracts (CONSUMES, CONSUMES_IF on the path's token-type fact, TRUTHY) are proved by the same path engine as a least fixpoint; self.pos is stored by advance() alone", [f"{PARSER}:Parser.*"], ob_parser_progress),
+        Ob(f"{P}.F8", "F", "repair() - called by octave_validate(fix) and octave_write(lenient) outside any handler - lets no exception out: the exception-escape set of its closure (explicit raises, int() / float() / ... on input-dependent arguments, propagated, minus handlers) is empty", ["octave_mcp.core.repair:repair"], ob_repair_total),
         Ob(f"{P}.F6", "F", "recursive cycles other than the capped bracket descent are entered only below a RecursionError handler", FUNCS, ob_recursion_cycles),
         Ob(f"{P}.F4", "F", "parser receipts (copied verbatim into tool envelopes) hold only JSON-safe values", [f"{PARSER}:Parser.*"], ob_receipt_values),
     ]
